@@ -185,6 +185,43 @@ func hashedFields(fn *ssa.Function) (map[string]bool, []ssa.CallInstruction) {
 		}
 		allCalls = append(allCalls, Calls(f, false)...)
 	}
+	// what is handed to a hashing helper and written there counts as written here
+	defer func() {
+		for _, ci := range allCalls {
+			h := ci.Common().StaticCallee()
+			if h == nil || h.Blocks == nil || h == fn {
+				continue
+			}
+			takesHash := false
+			for _, prm := range h.Params {
+				if strings.HasSuffix(prm.Type().String(), "lintcmd/cache.Hash") {
+					takesHash = true
+				}
+			}
+			if !takesHash {
+				continue
+			}
+			for pi, prm := range h.Params {
+				if pi >= len(ci.Common().Args) {
+					continue
+				}
+				written := false
+				for _, w := range Calls(h, true) {
+					switch CalleeName(w.Common()) {
+					case "fmt.Fprintf", "fmt.Fprint", "fmt.Fprintln", "io.WriteString", cachePkg + ".Hash.Write":
+						for _, a := range w.Common().Args[1:] {
+							if SliceHas(a, SliceOpts{ThroughCalls: true}, func(v ssa.Value) bool { return v == ssa.Value(prm) }) {
+								written = true
+							}
+						}
+					}
+				}
+				if written {
+					note(ci.Common().Args[pi])
+				}
+			}
+		}
+	}()
 	for _, ci := range allCalls {
 		name := CalleeName(ci.Common())
 		args := ci.Common().Args
